@@ -88,6 +88,9 @@ func c16R1(c *Ctx) {
 		return
 	}
 	sites := p.CallsTo(nil, md5.Obj)
+	for _, cs := range sites {
+		p.Anchor(cs.Fn) // request builders are identified by what they do; they stay functions in the normalised view
+	}
 	c.Floor("C16.R1", "md5Hash call sites (request builders)", 5, len(sites))
 	for _, cs := range sites {
 		fn := cs.Fn
@@ -179,6 +182,7 @@ func c16R2(c *Ctx) {
 	for _, cs := range p.CallsTo(nil, md5.Obj) {
 		fn := cs.Fn
 		builders[fn] = true
+		p.Anchor(fn)
 		info := fn.Info()
 		hashed := identObj(info, cs.Call.Args[0])
 		_, lhs := assignedFromCall(fn, cs.Call)
